@@ -20,6 +20,7 @@ type Coll struct {
 	KeyT    types.Type
 	ValT    types.Type
 	Entries []*storeEntry
+	Svc     string
 }
 
 type storeEntry struct {
@@ -122,7 +123,22 @@ func (e *Exec) newColl(kind string, fn *ssa.Function, a []Value) Value {
 	}
 	rt := fn.Signature.Results().At(0).Type()
 	targs := typeArgsOf(rt)
-	c := &Coll{ID: len(ss.Colls), Name: name, Kind: kind}
+	// collections are identified by (store service, collection name): a second keeper built
+	// over the same store service sees the same data (a restarted process)
+	svc := ""
+	if len(a) >= 1 {
+		if p, ok := a[0].(PtrV); ok {
+			if oo, ok := p.Opq.(*OpaqueObj); ok {
+				svc, _ = oo.Data.(string)
+			}
+		}
+	}
+	for _, old := range ss.Colls {
+		if old.Svc == svc && old.Name == name && old.Kind == kind {
+			return CollV{C: old}
+		}
+	}
+	c := &Coll{ID: len(ss.Colls), Name: name, Kind: kind, Svc: svc}
 	switch kind {
 	case "item":
 		if len(targs) >= 1 {
@@ -332,7 +348,13 @@ func pairOf(v Value) PairV {
 func init() {
 	I := intrinsics
 	I[collPkg+".NewSchemaBuilder"] = func(e *Exec, fn *ssa.Function, a []Value) Value {
-		return PtrV{Opq: &OpaqueObj{Kind: "schemabuilder"}}
+		svc := ""
+		if iv, ok := a[0].(IfaceV); ok {
+			if ov, ok := iv.V.(OpaqueV); ok {
+				svc = ov.ID
+			}
+		}
+		return PtrV{Opq: &OpaqueObj{Kind: "schemabuilder", Data: svc}}
 	}
 	I["(*"+collPkg+".SchemaBuilder).Build"] = func(e *Exec, fn *ssa.Function, a []Value) Value {
 		return TupleV{V: []Value{OpaqueV{Kind: "schema"}, IfaceV{}}}
@@ -544,3 +566,26 @@ func init() {
 }
 
 var _ = fmt.Sprint
+
+// snapshot / restore of the whole store (baseapp's cache-wrapped transaction execution)
+func (ss *StoreState) snapshot() [][]*storeEntry {
+	out := make([][]*storeEntry, len(ss.Colls))
+	for i, c := range ss.Colls {
+		cp := make([]*storeEntry, len(c.Entries))
+		for j, en := range c.Entries {
+			cp[j] = &storeEntry{K: deepCopy(en.K), V: deepCopy(en.V)}
+		}
+		out[i] = cp
+	}
+	return out
+}
+
+func (ss *StoreState) restore(snap [][]*storeEntry) {
+	for i, c := range ss.Colls {
+		if i < len(snap) {
+			c.Entries = snap[i]
+		} else {
+			c.Entries = nil
+		}
+	}
+}
